@@ -76,10 +76,15 @@ type SearchOpts struct {
 	AlphaFn func(st MState) []Req
 	Workers int
 	OnStep  func(*Step)
+	// PreStep is called directly before each explored Update.
+	PreStep func()
 	// OnEnv is called for every fresh environment (e.g. to wrap / observe).
 	Run *ev.Run
 	// Representatives per canonical state that are expanded (1 or 2).
 	Reps int
+	// Prelude requests are applied to every fresh environment before the
+	// path (e.g. to give another log a stored checkpoint); all must be accepted.
+	Prelude []Req
 	// MaxStates caps the search (0 = none).
 	MaxStates int
 }
@@ -152,6 +157,11 @@ func Search(o SearchOpts) (int, int64) {
 
 	build := func(path []Req, want string) *Env {
 		e := NewEnv(o.U, cfg)
+		for i, r := range o.Prelude {
+			if out := e.Do(r); out.Class != OK {
+				ev.Internal("prelude step %d (%s) was refused: %v", i, r.Label, out.Err)
+			}
+		}
 		for i, r := range path {
 			out := e.Do(r)
 			if out.Class != OK {
@@ -208,6 +218,9 @@ func Search(o SearchOpts) (int, int64) {
 							lc = &c
 						}
 						exp := Model(lc, st, r)
+						if o.PreStep != nil {
+							o.PreStep()
+						}
 						t0 := ClockNow()
 						out := e.Do(r)
 						t1 := ClockNow()
